@@ -10,6 +10,7 @@ import Driver.Util
 import Driver.FuelOps
 import Driver.ResultOps
 import Driver.StorageOps
+import Driver.PmsOps
 open Lean Driver
 
 def dispatch (op : String) (j : Json) : Except String Json :=
@@ -17,6 +18,7 @@ def dispatch (op : String) (j : Json) : Except String Json :=
   | "fuel" => fuelOp op j
   | "result" => resultOp op j
   | "storage" => storageOp op j
+  | "pms" => pmsOp op j
   | _ => .error s!"unknown op family in '{op}'"
 
 def handle (line : String) : String :=
